@@ -503,3 +503,154 @@ Proof.
   repeat split; try assumption.
   apply (joint_ok_g_sound (FFin 0) fval_eqb fval_same (fun a b => proj1 (fval_eqb_same a b)) ws zs pairs E3).
 Qed.
+
+
+(* ====================== several generator objects alive at once ====================== *)
+Lemma nth_error_set_nth_eq {A} (l : list A) i x y :
+  nth_error l i = Some y -> nth_error (set_nth i x l) i = Some x.
+Proof.
+  revert i. induction l as [|a l IH]; intros [|i]; simpl; try discriminate; auto.
+Qed.
+
+Lemma nth_error_set_nth_neq {A} (l : list A) i j x :
+  i <> j -> nth_error (set_nth j x l) i = nth_error l i.
+Proof.
+  revert i j. induction l as [|a l IH]; intros [|i] [|j] H; simpl; try reflexivity; try congruence.
+  apply IH. congruence.
+Qed.
+
+Lemma set_nth_length {A} (l : list A) i x : length (set_nth i x l) = length l.
+Proof. revert i. induction l as [|a l IH]; intros [|i]; simpl; auto. Qed.
+
+Section WorldP.
+  Context {seed sample : Type}.
+  Context (stream : seed -> nat -> sample).
+  Notation gen := (gen seed).
+  Notation wop := (wop seed).
+  Notation wrun := (@wrun seed sample stream).
+  Notation outputs_of := (@outputs_of sample).
+
+  (* NON-INTERFERENCE: whatever else is constructed and used in between, and in whatever order,
+     object i produces what it produces alone, and ends in the state it reaches alone *)
+  Theorem world_independent (sched : list wop) : forall (w : list gen) i g,
+    nth_error w i = Some g ->
+    let r := run stream (g_width g) (project i sched) (g_state g) in
+    outputs_of i (snd (wrun sched w)) = snd r /\
+    nth_error (fst (wrun sched w)) i = Some (mkGen (g_hasw g) (g_hasz g) (fst r)).
+  Proof.
+    induction sched as [|a sched IH]; intros w i g Hi; simpl.
+    - split; [reflexivity|]. rewrite Hi. destruct g; reflexivity.
+    - destruct a as [hw hz s|j o]; simpl.
+      + assert (Hi' : nth_error (w ++ [mkGen hw hz (fresh s)]) i = Some g).
+        { rewrite nth_error_app1; [exact Hi|]. apply nth_error_Some. congruence. }
+        specialize (IH _ _ _ Hi'). simpl in IH.
+        destruct (wrun sched (w ++ [mkGen hw hz (fresh s)])) as [w2 outs]. exact IH.
+      + destruct (Nat.eqb_spec j i) as [->|Hne].
+        * rewrite Hi. simpl.
+          destruct (step stream (g_width g) o (g_state g)) as [st1 out] eqn:Es.
+          set (g' := mkGen (g_hasw g) (g_hasz g) st1) in *.
+          assert (Hi' : nth_error (set_nth i g' w) i = Some g') by (eapply nth_error_set_nth_eq; exact Hi).
+          specialize (IH _ _ _ Hi'). simpl in IH. unfold g_width in *. simpl in IH.
+          destruct (wrun sched (set_nth i g' w)) as [w2 outs]. simpl.
+          destruct (run stream (cfg_width (g_hasw g) (g_hasz g)) (project i sched) st1) as [st2 outs2].
+          simpl in *. destruct IH as [IH1 IH2]. rewrite Nat.eqb_refl. simpl.
+          split; [f_equal; exact IH1|exact IH2].
+        * destruct (nth_error w j) as [gj|] eqn:Ej.
+          -- destruct (step stream (g_width gj) o (g_state gj)) as [st1 out].
+             assert (Hi' : nth_error (set_nth j (mkGen (g_hasw gj) (g_hasz gj) st1) w) i = Some g).
+             { rewrite nth_error_set_nth_neq; [exact Hi|congruence]. }
+             specialize (IH _ _ _ Hi'). simpl in IH.
+             destruct (wrun sched (set_nth j _ w)) as [w2 outs]. simpl.
+             destruct (Nat.eqb_spec j i); [congruence|]. simpl. exact IH.
+          -- specialize (IH _ _ _ Hi). simpl in IH.
+             destruct (wrun sched w) as [w2 outs]. exact IH.
+  Qed.
+
+  Lemma wrun_app (a b : list wop) (w : list gen) :
+    wrun (a ++ b) w =
+    let '(w1, o1) := wrun a w in let '(w2, o2) := wrun b w1 in (w2, o1 ++ o2).
+  Proof.
+    revert w. induction a as [|x a IH]; intros w; simpl.
+    - destruct (wrun b w). reflexivity.
+    - destruct (wstep stream x w) as [w1 out]. rewrite IH.
+      destruct (wrun a w1) as [w2 o1]. destruct (wrun b w2) as [w3 o2]. destruct out; reflexivity.
+  Qed.
+
+  (* ... also for an object constructed in the middle of a schedule, after any earlier use [pre]
+     of the objects that existed before *)
+  Theorem world_new_independent (pre rest : list wop) (w : list gen) hw hz s :
+    let w1 := fst (wrun pre w) in
+    outputs_of (length w1) (snd (wrun (WNew hw hz s :: rest) w1)) =
+    snd (run stream (cfg_width hw hz) (project (length w1) rest) (fresh s)).
+  Proof.
+    intros w1. simpl.
+    pose proof (world_independent rest (w1 ++ [mkGen hw hz (fresh s)]) (length w1) (mkGen hw hz (fresh s))) as H.
+    simpl in H. destruct (wrun rest (w1 ++ [mkGen hw hz (fresh s)])) as [w2 outs]. simpl in *.
+    apply H. rewrite nth_error_app2, Nat.sub_diag; [reflexivity|lia].
+  Qed.
+
+  (* every chunk has as many vectors as ITS OWN object draws: 2 (x, y), or 3 when it was given
+     weights or redshifts (the index vector) *)
+  Lemma step_shape width o (st : @state seed) :
+    Forall (fun c : @chunk sample => length (ch_vecs c) = width) (snd (step stream width o st)).
+  Proof.
+    destruct o; simpl; try constructor; simpl;
+      try (rewrite map_length, seq_length; reflexivity); try constructor.
+    pose proof (draws_shape stream width (random_sizes n cs) (reseed st)) as H.
+    eapply Forall_impl; [|exact H]. simpl. intros c [Hc _]. exact Hc.
+  Qed.
+
+  Lemma run_shape width ops (st : @state seed) :
+    Forall (Forall (fun c : @chunk sample => length (ch_vecs c) = width)) (snd (run stream width ops st)).
+  Proof.
+    revert st. induction ops as [|o r IH]; intros st; simpl; [constructor|].
+    pose proof (step_shape width o st) as Hs. destruct (step stream width o st) as [s1 out].
+    specialize (IH s1). destruct (run stream width r s1) as [s2 outs]. simpl in *.
+    constructor; assumption.
+  Qed.
+
+  Theorem world_chunk_width (sched : list wop) (w : list gen) i g :
+    nth_error w i = Some g ->
+    Forall (Forall (fun c : @chunk sample => length (ch_vecs c) = cfg_width (g_hasw g) (g_hasz g)))
+           (outputs_of i (snd (wrun sched w))).
+  Proof.
+    intros Hi. destruct (world_independent sched w i g Hi) as [H _]. rewrite H. apply run_shape.
+  Qed.
+End WorldP.
+
+(* with ONE shared set of flags the statement is false (compare world_new_independent with
+   pre = [] and w = []): object 0 was given weights and redshifts, a second object without them is
+   constructed, and object 0 then draws no index vector *)
+Theorem shared_flags_refuted :
+  exists (rest : list (wop nat)) hw hz s,
+    outputs_of 0 (snd (wrun_shared (fun sd p => sd + p) (WNew hw hz s :: rest) (false, false) [])) <>
+    snd (run (fun sd p => sd + p) (cfg_width hw hz) (project 0 rest) (fresh s)).
+Proof.
+  exists [WNew false false 7; WOp 0 (Draw 2)], true, true, 100. vm_compute. discriminate.
+Qed.
+
+(* status 0 of the checker means what the flags say *)
+Theorem c16_multi_gen_zero hw hz obs evs evs_solo ra0 ra1 dec0 dec1 ras decs weights redshifts pairs :
+  c16_multi_gen hw hz obs evs evs_solo ra0 ra1 dec0 dec1 ras decs weights redshifts pairs = 0 ->
+  Forall (fun o => mo_n o = op_total (mo_ops o) /\ mo_same o = true /\
+                   (op_total (mo_ops o) <> 0 -> mo_w o = hw /\ mo_z o = hz)) obs /\
+  (forall wz, In wz pairs ->
+     exists j, j < length weights /\ j < length redshifts /\
+               (fst wz == nth j weights 0)%Q /\ (snd wz == nth j redshifts 0)%Q).
+Proof.
+  unfold c16_multi_gen, code. simpl.
+  destruct (history_agree _ evs && history_agree _ evs_solo); [|simpl; lia].
+  destruct (forallb (fun o => mo_n o =? op_total (mo_ops o)) obs && _ && _) eqn:E1; [|simpl; lia].
+  destruct (in_window ra0 ra1 ras && in_window dec0 dec1 decs); [|simpl; lia].
+  destruct (joint_ok weights redshifts pairs) eqn:E3; [|simpl; lia].
+  destruct (forallb mo_same obs) eqn:E4; [|simpl; lia].
+  destruct (forallb _ obs && (length pairs =? _)) eqn:E5; [|simpl; lia].
+  intros _. split; [|apply joint_ok_sound; exact E3].
+  apply andb_true_iff in E1. destruct E1 as [E1 _]. apply andb_true_iff in E1. destruct E1 as [E1 _].
+  apply andb_true_iff in E5. destruct E5 as [E5 _].
+  rewrite forallb_forall in E1, E4, E5. apply Forall_forall. intros o Ho.
+  split; [apply Nat.eqb_eq, E1, Ho|]. split; [apply E4, Ho|].
+  intros Hnz. specialize (E5 o Ho). apply orb_true_iff in E5. destruct E5 as [E5|E5].
+  - apply Nat.eqb_eq in E5. contradiction.
+  - apply andb_true_iff in E5. destruct E5 as [Ea Eb]. split; apply eqb_prop; assumption.
+Qed.
